@@ -146,7 +146,8 @@ def translate(
             else:
                 log.error('Error writing "%s"', outfile)
             return False
-        except KeyError:
+        # flattening and code generation can throw Exception in several places
+        except Exception:  # pylint: disable=broad-except
             log.exception("Problem translating %s to SymPy", model)
             return False
     else:
@@ -261,7 +262,8 @@ def main(argv: List[str]) -> int:
         if not errors and args.model:
             for model in args.model:
                 if args.target:
-                    translate(library_ast, model, "sympy", options, args.outdir)
+                    if not translate(library_ast, model, "sympy", options, args.outdir):
+                        errors += 1
                 elif args.model:
                     try:
                         _ = flatten_class(library_ast, model)
